@@ -502,7 +502,10 @@ func runC09(res *Result, tier string, seed int64, replay string) {
 				return n
 			}
 			// single levels
-			noop(withHead(func(at, d *Node) { at.Kids = append(at.Kids, mk("mj-class", "name", "m1", attr, v1)); find(d).Set("mj-class", "m1") }), find, attr, v1, "mj-class", informative)
+			noop(withHead(func(at, d *Node) {
+				at.Kids = append(at.Kids, mk("mj-class", "name", "m1", attr, v1))
+				find(d).Set("mj-class", "m1")
+			}), find, attr, v1, "mj-class", informative)
 			noop(withHead(func(at, d *Node) { at.Kids = append(at.Kids, mk(tag, attr, v1)) }), find, attr, v1, "tag-default", informative)
 			allDoc := withHead(func(at, d *Node) { at.Kids = append(at.Kids, mk("mj-all", attr, v1)) })
 			// mj-all reaches every element: test each element of the context separately (attributed to ITS tag)
